@@ -2,7 +2,7 @@ package network
 
 // C43 part (c), sequential — E-SEQ on the real messageFilter behind two real wsPeer read loops.
 //
-// System: one messageFilter (2 buckets x bucket size 2; thorough: depth 7, and also 3x2 at depth 7 and 3x1, 2x1 at depth 6) shared as incomingMsgFilter by
+// System: one messageFilter (2 buckets x bucket size 2, and 3x1, 3x2 at depth 5 (warm-up of a 3-bucket filter); thorough: depth 7, and also 3x2 at depth 7 and 3x1, 2x1 at depth 6) shared as incomingMsgFilter by
 // two wsPeers whose readLoop runs on a lock-step scripted connection; a delivery op hands one frame to one peer
 // and waits until that peer asks for the next frame, then looks at the shared readBuffer channel ("handed to the
 // handler" = the IncomingMessage was queued on readBuffer).
@@ -262,8 +262,11 @@ func (s *c43FSys) key() string {
 
 func c43PartCSeq(r *ve.Run, cov *ve.Coverage) {
 	type cfg struct{ buckets, size, depth int }
-	cfgs := []cfg{{2, 2, ve.Pick(6, 7)}}
+	// 3 buckets in the quick tier too: a filter with >= 3 buckets has a warm-up phase (buckets are allocated one per
+	// rotation) that a 2-bucket filter does not have.
+	cfgs := []cfg{{2, 2, ve.Pick(6, 7)}, {3, 1, 5}, {3, 2, 5}}
 	if ve.Thorough() {
+		cfgs = cfgs[:1]
 		cfgs = append(cfgs, cfg{3, 2, 7}, cfg{3, 1, 6}, cfg{2, 1, 6})
 	}
 	ops := c43FOps()
